@@ -219,6 +219,8 @@ def run(chk):
         "harness tools/props/c04.py, tools/vlib/c04lib.py (calls montepy.read_input, the number setters and write_to_file in-process)",
     ]
     leanio.prove(chk, "MontePyVerif.Props.C04", THEOREMS, "MontePyVerif.Links")
+    if chk.thorough:
+        leanio.leanchecker(chk, ["MontePyVerif.Props.C04"])
     drv = leanio.Driver(chk, "drv_c04")
 
     # ------------------------------------------------------------------ texts
